@@ -103,3 +103,37 @@ V('c01-benign-match', 'C01', 'silent', (C, '''        let entry = shard.get(&key
             Some(entry) => unsafe { Some(entry.inner().extend_lifetime()) },
             None => None,
         }'''))
+
+# ---- C02
+V('c02-anycache-contains-looks-up', 'C02', 'C02.R1', (A, '''        self.cache._contains::<T>(id)''', '''        self.cache._get_cached::<T>(id).is_some()'''))
+V('c02-get-cached-loads', 'C02', 'C02.R3', (A, '''        self.assets().get(id, typ.type_id)
+    }''', '''        self.assets()
+            .get(id, typ.type_id)
+            .or_else(|| self.add_asset(id, typ).ok())
+    }'''))
+V('c02-clear-skips-a-shard', 'C02', 'C02.R4', (C, '''        for shard in &mut *self.shards {''', '''        for shard in self.shards.iter_mut().skip(1) {'''))
+V('c02-local-take-wrong-type', 'C02', 'C02.R4', (L, '''    fn take(&mut self, id: &str, type_id: TypeId) -> Option<CacheEntry> {
+        let key = BorrowedKey::new_with(id, type_id);''', '''    fn take(&mut self, id: &str, type_id: TypeId) -> Option<CacheEntry> {
+        let type_id = if id.is_empty() { TypeId::of::<()>() } else { type_id };
+        let key = BorrowedKey::new_with(id, type_id);'''))
+V('c02-load-owned-caches', 'C02', 'C02.R1', (A, '''    fn _load_owned<T: Compound>(&self, id: &str) -> Result<T, Error> {
+        let entry = self.load_owned_entry(id, Type::of::<T>())?;''', '''    fn _load_owned<T: Compound>(&self, id: &str) -> Result<T, Error> {
+        let _ = self.load_entry(id, Type::of::<T>());
+        let entry = self.load_owned_entry(id, Type::of::<T>())?;'''))
+V('c02-insert-before-check', 'C02', 'C02.R2', (A, '''        let entry = crate::asset::load_and_record(cache, id, typ)?;
+
+        Ok(self.assets().insert(entry))''', '''        let entry = match crate::asset::load_and_record(cache, id.clone(), typ) {
+            Ok(e) => e,
+            Err(err) => {
+                // remember the failure
+                self.assets().insert(CacheEntry::new(0u8, id, || false));
+                return Err(err);
+            }
+        };
+
+        Ok(self.assets().insert(entry))'''))
+V('c02-benign-remove-match', 'C02', 'silent', (C, '''        self.take(id, type_id).is_some()''', '''        match self.take(id, type_id) {
+            Some(_) => true,
+            None => false,
+        }'''))
+V('c02-benign-local-contains-direct', 'C02', 'silent', (L, '''        self._contains::<T>(id)''', '''        crate::anycache::AssetMap::contains_key(&self.assets, id, TypeId::of::<T>())'''))
